@@ -301,9 +301,10 @@ def copy3 (n : Nat) (dst : Arr3 UInt32) (src : List UInt32) : R (Arr3 UInt32) :=
     pure (a.set i v)) dst
 
 /-- `MDL::update_headers` (with the shape counts refreshed before the runtime size is computed,
-fix C07-03) -/
+fix C07-03; the first loop runs over the parsed LODs, fix C07-06) -/
 def updateHeaders (m : MDL) : R MDL := do
-  let meshes ← updateMeshOffsets m.modelData m.fileHeader.lodCount.toNat
+  -- fix C07-06: the parsed LODs (`self.lods.len()`), not the file header's stored count
+  let meshes ← updateMeshOffsets m.modelData m.lods.length
   let lods ← m.modelData.lods.mapM (updateLodSizes meshes)
   let header : ModelHeader := { m.modelData.header with
     shapeCount := m.modelData.shapes.length.toUInt16,
